@@ -155,3 +155,310 @@ pub fn c04(tier: &str) -> i32 {
         "BFS over all interleavings of session statements (begin/read all/read by key/insert/delete/update/commit/rollback) and autocommit writers; every read result is compared with the snapshot-isolation model; an outcome is the digest of all results along the history",
     )
 }
+
+fn insv(table: &str, row: Vec<Val>) -> Stmt {
+    Stmt::Insert { table: table.into(), rows: vec![row] }
+}
+
+pub fn c07(tier: &str) -> i32 {
+    let quick = tier == "quick";
+    let mut searches = vec![];
+    // A: single-column UNIQUE + NOT NULL declared in CREATE TABLE
+    {
+        let def = t_unique().with_not_null("v");
+        let prefix = vec![Op::Auto(Stmt::CreateTable(def)), Op::Auto(ins("t", &[(1, 10)]))];
+        let mut alpha = vec![
+            Op::Auto(ins("t", &[(1, 11)])),
+            Op::Auto(ins("t", &[(2, 20)])),
+            Op::Auto(insv("t", vec![Val::Null, i(30)])),
+            Op::Auto(insv("t", vec![i(3), Val::Null])),
+            Op::Auto(ins("t", &[(3, 30), (2, 21)])),
+            Op::Auto(del("t", 1)),
+            Op::Auto(del("t", 2)),
+            Op::Auto(Stmt::Update { table: "t".into(), set: vec![("k".into(), i(2))], pred: Some(("k".into(), i(1))) }),
+            Op::Vacuum,
+        ];
+        for s in [1u8, 2] {
+            alpha.push(Op::Begin(s));
+            alpha.push(Op::In(s, ins("t", &[(2, 20 + s as i128)])));
+            alpha.push(Op::In(s, ins("t", &[(1, 10 + s as i128)])));
+            alpha.push(Op::In(s, del("t", 1)));
+            alpha.push(Op::Commit(s));
+            alpha.push(Op::Rollback(s));
+        }
+        searches.push(mk_search("C07", "t(k UNIQUE, v NOT NULL) declared in CREATE TABLE", Cfg::default(), prefix, alpha, if quick { 5 } else { 7 }, if quick { 120_000 } else { 4_000_000 }, |_| {}));
+    }
+    // B: constraint added by CREATE UNIQUE INDEX on a populated table
+    {
+        let prefix = vec![Op::Auto(Stmt::CreateTable(t_plain())), Op::Auto(ins("t", &[(1, 10)]))];
+        let alpha = vec![
+            Op::Auto(Stmt::CreateUniqueIndex { name: "ix".into(), table: "t".into(), cols: vec!["k".into()] }),
+            Op::Auto(ins("t", &[(1, 11)])),
+            Op::Auto(ins("t", &[(2, 20)])),
+            Op::Auto(del("t", 1)),
+            Op::Begin(1),
+            Op::In(1, ins("t", &[(2, 21)])),
+            Op::In(1, Stmt::CreateUniqueIndex { name: "ix".into(), table: "t".into(), cols: vec!["k".into()] }),
+            Op::Commit(1),
+            Op::Rollback(1),
+            Op::Vacuum,
+        ];
+        searches.push(mk_search("C07", "UNIQUE added by CREATE UNIQUE INDEX on populated t(k,v)", Cfg::default(), prefix, alpha, if quick { 5 } else { 7 }, if quick { 60_000 } else { 2_000_000 }, |_| {}));
+    }
+    // C: two-column constraint
+    {
+        let def = TableDef::simple("m", &[("a", ColTy::Int), ("b", ColTy::Int)]).with_unique(&["a", "b"]);
+        let prefix = vec![Op::Auto(Stmt::CreateTable(def)), Op::Auto(ins("m", &[(1, 1)]))];
+        let mut alpha = vec![
+            Op::Auto(ins("m", &[(1, 1)])),
+            Op::Auto(ins("m", &[(1, 2)])),
+            Op::Auto(ins("m", &[(2, 1)])),
+            Op::Auto(insv("m", vec![i(1), Val::Null])),
+            Op::Auto(Stmt::Delete { table: "m".into(), pred: Some(("b".into(), i(1))) }),
+            Op::Vacuum,
+        ];
+        alpha.push(Op::Begin(1));
+        alpha.push(Op::In(1, ins("m", &[(1, 2)])));
+        alpha.push(Op::In(1, Stmt::Delete { table: "m".into(), pred: Some(("a".into(), i(1))) }));
+        alpha.push(Op::Commit(1));
+        alpha.push(Op::Rollback(1));
+        searches.push(mk_search("C07", "m(a,b) UNIQUE(a,b)", Cfg::default(), prefix, alpha, if quick { 5 } else { 7 }, if quick { 60_000 } else { 2_000_000 }, |_| {}));
+    }
+    run_searches(
+        "C07",
+        tier,
+        "model_checking",
+        searches,
+        &[
+            "statement-level interleavings of two sessions plus autocommit statements",
+            "keys from {1,2,3,NULL}; constraints declared in CREATE TABLE (single and two-column) and by CREATE UNIQUE INDEX",
+            "the committed-state invariant (no two live rows agree on a constrained column set, no NULL in a NOT NULL column) is implied by equality of every fresh read with the model, which maintains it by construction",
+            "histories on which a listed known finding's hazard fires are judged only up to the hazard step",
+        ],
+        "BFS over insert/duplicate insert/NULL insert/multi-row insert/delete/re-insert/update-to-key/rollback/vacuum sequences; each statement must be accepted or rejected exactly as the constraint model says and every fresh read must equal the model",
+    )
+}
+
+fn t2_def() -> TableDef {
+    TableDef::simple("t2", &[("a", ColTy::Int), ("b", ColTy::Text)])
+}
+fn ins_t2(a: i128, b: &str) -> Stmt {
+    Stmt::Insert { table: "t2".into(), rows: vec![vec![i(a), Val::Text(b.into())]] }
+}
+
+pub fn c13(tier: &str) -> i32 {
+    let quick = tier == "quick";
+    let mut searches = vec![];
+    {
+        let prefix = vec![Op::Auto(Stmt::CreateTable(t_plain())), Op::Auto(ins("t", &[(1, 10), (2, 20)]))];
+        let alpha = vec![
+            Op::Auto(ins("t", &[(3, 30)])),
+            Op::Auto(del("t", 1)),
+            Op::Auto(upd("t", 2, 21)),
+            Op::Auto(upd("t", 2, 22)),
+            Op::Begin(1),
+            Op::In(1, ins("t", &[(4, 40)])),
+            Op::In(1, del("t", 2)),
+            Op::In(1, upd("t", 1, 11)),
+            Op::Commit(1),
+            Op::Rollback(1),
+            Op::Auto(Stmt::CreateTable(t2_def())),
+            Op::Auto(ins_t2(1, "x")),
+            Op::Auto(Stmt::DropTable("t2".into())),
+            Op::Vacuum,
+            Op::Reopen,
+        ];
+        searches.push(mk_search("C13", "t(k,v): committed/rolled-back insert, update, delete, create/drop t2, VACUUM anywhere, reopen", Cfg::default(), prefix, alpha, if quick { 5 } else { 7 }, if quick { 150_000 } else { 6_000_000 }, |p| {
+            p.vacuum_end = true;
+        }));
+    }
+    {
+        // same on a table with a unique index (index trees are vacuumed too)
+        let prefix = vec![Op::Auto(Stmt::CreateTable(t_unique())), Op::Auto(ins("t", &[(1, 10), (2, 20)]))];
+        let alpha = vec![
+            Op::Auto(ins("t", &[(3, 30)])),
+            Op::Auto(ins("t", &[(1, 11)])),
+            Op::Auto(del("t", 1)),
+            Op::Auto(selk("t", 1)),
+            Op::Auto(selk("t", 3)),
+            Op::Begin(1),
+            Op::In(1, ins("t", &[(3, 31)])),
+            Op::In(1, del("t", 2)),
+            Op::Commit(1),
+            Op::Rollback(1),
+            Op::Vacuum,
+            Op::Reopen,
+        ];
+        searches.push(mk_search("C13", "t(k UNIQUE,v): inserts, duplicate inserts, deletes, rollbacks, lookups by key, VACUUM anywhere, reopen", Cfg::default(), prefix, alpha, if quick { 5 } else { 7 }, if quick { 150_000 } else { 6_000_000 }, |p| {
+            p.vacuum_end = true;
+        }));
+    }
+    let code = run_searches(
+        "C13",
+        tier,
+        "model_checking",
+        searches,
+        &[
+            "VACUUM is a no-op in the reference model: every answer after it must equal the answer the model gives without it",
+            "in addition to VACUUM at every position of the alphabet, every history without an open session is followed by VACUUM + fresh read of all tables (end-of-history oracle)",
+            "VACUUM with open sessions (documented to abort them) is outside this alphabet",
+            "histories on which a listed known finding's hazard fires are judged only up to the hazard step",
+        ],
+        "BFS over committed and rolled-back inserts/updates/deletes, table create/drop, VACUUM at any position (repeated), reopen; oracle = step-wise equality with the SI model in which VACUUM changes nothing",
+    );
+    let b = c13_boundedness(tier);
+    if code == 0 { b } else { code }
+}
+
+/// (update; vacuum)^n: live storage must stop growing after the first cycle.
+fn c13_boundedness(tier: &str) -> i32 {
+    use crate::sqldrv::Db;
+    let n = if tier == "quick" { 8 } else { 40 };
+    let mut db = match Db::create("c13b", Cfg::default()) {
+        Ok(d) => d,
+        Err(e) => {
+            eprintln!("MACHINERY-ERROR property=C13: {e}");
+            return 2;
+        }
+    };
+    let pad = "x".repeat(600);
+    db.exec("CREATE TABLE g (k INT, v TEXT)");
+    for k in 0..8 {
+        db.exec(&format!("INSERT INTO g VALUES ({k}, '{pad}')"));
+    }
+    let mut sizes = vec![];
+    for c in 0..n {
+        for k in 0..8 {
+            let o = db.exec(&format!("UPDATE g SET v = '{}{}' WHERE k = {k}", &pad[..590], c % 10));
+            if o.is_err() {
+                println!("VIOLATION property=C13 replay=none");
+                println!("  boundedness run: UPDATE failed in cycle {c}: {}", o.show());
+                return 1;
+            }
+        }
+        if let Err(e) = db.vacuum() {
+            println!("VIOLATION property=C13 replay=none");
+            println!("  boundedness run: VACUUM failed in cycle {c}: {e:?}");
+            return 1;
+        }
+        sizes.push(db.file_len());
+    }
+    let first = sizes[1.min(sizes.len() - 1)];
+    let last = *sizes.last().unwrap();
+    eprintln!("[C13] boundedness: file size after cycles {:?}", sizes);
+    if last > first {
+        println!("VIOLATION property=C13 replay=none");
+        println!("  (update 8 rows; vacuum)^{n}: file keeps growing after the first cycle: {:?}", sizes);
+        return 1;
+    }
+    0
+}
+
+pub fn c15(tier: &str) -> i32 {
+    let quick = tier == "quick";
+    let mut searches = vec![];
+    {
+        let prefix = vec![Op::Auto(Stmt::CreateTable(t_plain())), Op::Auto(ins("t", &[(1, 10)]))];
+        let t2b = TableDef::simple("t2", &[("a", ColTy::Int), ("b", ColTy::Text), ("c", ColTy::Int)]).with_not_null("a");
+        let alpha = vec![
+            Op::Auto(Stmt::CreateTable(t2_def())),
+            Op::Auto(Stmt::CreateTable(t2b.clone())),
+            Op::Auto(Stmt::DropTable("t2".into())),
+            Op::Auto(ins_t2(1, "x")),
+            Op::Auto(Stmt::Insert { table: "t2".into(), rows: vec![vec![i(1), Val::Text("x".into()), i(3)]] }),
+            Op::Auto(sel("t2")),
+            Op::Auto(ins("t", &[(2, 20)])),
+            Op::Auto(Stmt::SetNotNull { table: "t".into(), col: "v".into() }),
+            Op::Auto(Stmt::DropNotNull { table: "t".into(), col: "v".into() }),
+            Op::Auto(insv("t", vec![i(3), Val::Null])),
+            Op::Auto(Stmt::CreateUniqueIndex { name: "ix".into(), table: "t".into(), cols: vec!["k".into()] }),
+            Op::Begin(1),
+            Op::In(1, Stmt::CreateTable(t2_def())),
+            Op::In(1, ins_t2(2, "y")),
+            Op::In(1, ins("t", &[(4, 40)])),
+            Op::In(1, sel("t2")),
+            Op::Commit(1),
+            Op::Rollback(1),
+            Op::Reopen,
+        ];
+        searches.push(mk_search("C15", "create/drop/re-create t2 (two shapes), SET/DROP NOT NULL, CREATE UNIQUE INDEX, DML on both tables, DDL inside committed/rolled-back transactions, reopen", Cfg::default(), prefix, alpha, if quick { 5 } else { 7 }, if quick { 200_000 } else { 8_000_000 }, |p| {
+            p.reopen_end = true;
+        }));
+    }
+    {
+        // the ALTER shapes that are listed findings, plus DROP inside a transaction: kept in a separate
+        // search so that the evidence shows how much of the space they mask
+        let prefix = vec![Op::Auto(Stmt::CreateTable(TableDef::simple("t", &[("k", ColTy::Int), ("v", ColTy::Int), ("w", ColTy::Text)]))), Op::Auto(Stmt::Insert { table: "t".into(), rows: vec![vec![i(1), i(10), Val::Text("a".into())]] })];
+        let alpha = vec![
+            Op::Auto(Stmt::AddColumn { table: "t".into(), col: ColDef { name: "z".into(), ty: ColTy::Int, not_null: false, default: None } }),
+            Op::Auto(Stmt::AddColumn { table: "t".into(), col: ColDef { name: "z".into(), ty: ColTy::Int, not_null: false, default: Some(i(5)) } }),
+            Op::Auto(Stmt::DropColumn { table: "t".into(), col: "v".into() }),
+            Op::Auto(sel("t")),
+            Op::Begin(1),
+            Op::In(1, Stmt::DropTable("t".into())),
+            Op::In(1, Stmt::SetNotNull { table: "t".into(), col: "v".into() }),
+            Op::Commit(1),
+            Op::Rollback(1),
+        ];
+        searches.push(mk_search("C15", "ALTER ADD/DROP COLUMN on a populated table, DROP TABLE and ALTER inside transactions (listed findings)", Cfg::default(), prefix, alpha, 3, 50_000, |_| {}));
+    }
+    run_searches(
+        "C15",
+        tier,
+        "model_checking",
+        searches,
+        &[
+            "transactional-DDL reference model: an object exists for a reader exactly if its creator is visible to the reader's snapshot and its dropper is not",
+            "every history without an open session is followed by close + reopen + fresh read of all tables (end-of-history oracle)",
+            "histories on which a listed known finding's hazard fires are judged only up to the hazard step",
+        ],
+        "BFS over DDL (create/drop/re-create with another shape, SET/DROP NOT NULL, CREATE UNIQUE INDEX, ADD/DROP COLUMN) interleaved with DML on the same and another table, in autocommit and inside committed/rolled-back sessions, with reopen",
+    )
+}
+
+pub fn c09(tier: &str) -> i32 {
+    let quick = tier == "quick";
+    let mut searches = vec![];
+    let big = "y".repeat(9000); // forces an overflow chain with 4 KiB pages
+    let cfgs: Vec<(Cfg, Cfg, &str)> = vec![
+        (Cfg::default(), Cfg::default(), "page 4096, default cache"),
+        (Cfg { page_size: 8192, cache: 64, pool: 2, min_keys: 4, siblings: 1 }, Cfg { page_size: 4096, cache: 10000, pool: 1, min_keys: 3, siblings: 3 }, "created with page 8192/cache 64/min_keys 4, reopened with a different config"),
+    ];
+    for (ccfg, ocfg, label) in cfgs {
+        let prefix = vec![Op::Auto(Stmt::CreateTable(t_unique())), Op::Auto(ins("t", &[(1, 10)]))];
+        let alpha = vec![
+            Op::Auto(ins("t", &[(2, 20)])),
+            Op::Auto(ins("t", &[(1, 11)])),
+            Op::Auto(del("t", 1)),
+            Op::Auto(Stmt::CreateTable(t2_def())),
+            Op::Auto(ins_t2(1, "x")),
+            Op::Auto(ins_t2(2, &big)),
+            Op::Auto(Stmt::Delete { table: "t2".into(), pred: Some(("a".into(), i(2))) }),
+            Op::Auto(Stmt::DropTable("t2".into())),
+            Op::Begin(1),
+            Op::In(1, ins("t", &[(3, 30)])),
+            Op::In(1, del("t", 1)),
+            Op::Commit(1),
+            Op::Rollback(1),
+            Op::Flush,
+            Op::Vacuum,
+            Op::Reopen,
+        ];
+        searches.push(mk_search("C09", &format!("unique table + second table with overflow rows, rollbacks, drop, flush, vacuum, reopen ({label})"), ccfg, prefix, alpha, if quick { 4 } else { 6 }, if quick { 150_000 } else { 6_000_000 }, |p| {
+            p.reopen_end = true;
+            p.reopen_cfg = Some(ocfg);
+        }));
+    }
+    run_searches(
+        "C09",
+        tier,
+        "model_checking",
+        searches,
+        &[
+            "the model is carried across every close/reopen: all tables, rows, NOT NULL/UNIQUE behaviour (probe statements in the alphabet), invisibility of rolled-back data, and fresh row/object ids (inserts and CREATE TABLE after reopen must not collide with old ones)",
+            "every history without an open session is additionally followed by close + reopen (with a different configuration in the second search) + fresh read of all tables",
+            "the >8192-transactions part of the property is covered by a separate long-history run only in the thorough tier",
+        ],
+        "BFS over DML/DDL histories split at arbitrary points by flush, VACUUM and close/reopen; oracle = step-wise equality with the SI model carried across reopen",
+    )
+}
